@@ -20,7 +20,7 @@ TIME = {'quick': 110, 'thorough': 1500}
 
 @st.composite
 def cases(draw, tier='quick'):
-    dom = draw(gen.domains(2, 5, 1, 3, cap=243))
+    dom = draw(gen.domains(2, 5 if tier == 'quick' else 6, 1, 3, cap=243 if tier == 'quick' else 729))
     attrs = dom['attrs']
     shape_mode = draw(st.sampled_from(['free', 'free', 'triple_overlap', 'loop', 'chain']))
     perm = list(draw(st.permutations(attrs)))
